@@ -1,5 +1,5 @@
 PROP = {
-    "groups": ["names", "names07"],
+    "groups": ["names", "names07", "recvfiles", "names-e2e"],
     "rule": "real receiver name handling (recvFileName over the wire, createFile, unmarshalSourceFile+createDirOrFile with "
             "truncate on/off, archiveFileWriter.Write headers incl. nested, deleteCreatedFiles, getNewName) in real directory "
             "trees <private mktemp root>/l1/../l8/r/sb/{dest,outside,evil} (11 levels deep, at most 6 '..' per name, so that a tree "
@@ -9,7 +9,16 @@ PROP = {
             "(relative paths, types, bytes, mtimes) before, after every message and after the deletion are turned into an effect "
             "list and compared with the model's effect log, per-message accept/reject and chosen name, createdFiles, deleted list "
             "and both trees; filepath.Join itself is compared with the model's join; non-trivial = a message was refused, renamed, "
-            "something was deleted or a full series was present; distinct = distinct input line",
+            "something was deleted or a full series was present; distinct = distinct input line. Group recvfiles: a scripted "
+            "protocol-1 sender stream (NUM, per entry NAME [SIZE DATA.. MD5]) through the REAL recvFiles in the same deep sandboxes: "
+            "plain files with repeated names; directory mode with several roots, colliding/renamed roots (x.0, x.1), empty "
+            "directories, directory-only trees, records below an unannounced root, repeated and interleaved roots, archive records "
+            "with their entry headers in the data stream (own and foreign path id), sessions failing in the middle; the returned "
+            "name list, createdFiles and the tree are compared with NamesRecv.nr_run; direct oracle reported names = new top-level "
+            "entries (no duplicates, nothing on failure). Group names-e2e: real trz/tsz binary against the real client filter, both "
+            "directions, protocols 1-4, overwrite on/off, sources with empty directories / directory-only trees / files / trees, "
+            "destinations that already hold the names, sources sent twice; oracle: the Saved message shown lists exactly the new "
+            "top-level entries",
     "trusted": ["modelled, not verified: json.Unmarshal into sourceFile (an arbitrary function `decode` in every theorem); the "
                 "operating system's path resolution, open/mkdir/unlink (Model/Fs.v transcribes Linux behaviour for a process that "
                 "may do everything: ENOENT vs ENOTDIR/ENAMETOOLONG/EINVAL, NAME_MAX 255) — compared with the real kernel by the "
@@ -27,12 +36,17 @@ TEXT = {
             "headers (accepted or refused), with or without the final deletion, every pre-existing path keeps its node and bytes "
             "and is never the target of a create/open/truncate/remove; everything one message does lies under one fresh clean "
             "top-level name, which is the name returned; all accepted records with one path id get one name; every new top-level "
-            "name was returned for some message; name, name.0 .. name.999 all present => refusal with the state unchanged; the "
+            "name was returned for some message; at the loop of recvFiles (directory records without a data stream included) the "
+            "list reported as saved has no duplicates, is exactly the set of top-level names that are new, in the order of their "
+            "first effect (entries carrying their archive's path id), and every reported name exists; name, name.0 .. name.999 "
+            "all present => refusal with the state unchanged; the "
             "chosen name is the first absent candidate. Tied to the code by regenerated constants and differential execution "
             "against the real functions in real directory trees with adversarial pre-states.",
-    "note": "Partial: of 'names returned = names created' the direction 'a returned name exists afterwards' is checked by the "
-            "correspondence run and the direct oracle only (C07_consistent_names_full is stated, C07_consistent_names_partial "
-            "proved). Known finding: the name chosen for an archive ENTRY is never reported, so an entry with a foreign path id "
+    "note": "Partial at the flat message level only (C07_consistent_names_full stated, _partial proved); at the recvFiles level "
+            "both directions are proved (C07_reported_roots, C07_reported_present); without the own-path-id condition the equality "
+            "is refuted (C07_reported_roots_foreign_refuted = the known finding). The data exchange of an entry is not part of the "
+            "recvFiles model (a failing exchange = a failing transfer, nothing reported); recvFileNameV3's prefix-hash exchange is "
+            "C08's. Known finding: the name chosen for an archive ENTRY is never reported, so an entry with a foreign path id "
             "creates an unreported (fresh, inside) top-level name. Trusted/not covered as for C09.",
     "technique": "Coq proof (invariant 'every effect lies under a top-level name absent from the prior state') + regenerated "
                  "constants + extracted-model correspondence on real directory trees + direct snapshot oracles",
